@@ -4,7 +4,9 @@
     five reduction trees) and are compared bit for bit with the real AVX/SSE/scalar kernels.     *)
 From Coq Require Import ZArith Reals List Bool Lra.
 From Rubato.Model Require Import Num Reals Base Kernels Async.
-From Rubato.Proofs Require Import KernelsR.
+From Rubato.Proofs Require Import KernelsR KernelErr KernelSim64 KernelSim32.
+From Flocq Require Import Core BinarySingleNaN.
+From Rubato.Model Require Floats.
 Import ListNotations.
 Local Open Scope R_scope.
 
@@ -25,9 +27,62 @@ Theorem C15_read_set : forall k (sincs : list (list (@snum CR SR))) len nbr (buf
   (index + len < zlen buf)%Z /\ (sub < nbr)%Z.
 Proof. exact sinc_point_reads. Qed.
 
-(** Unproved, kept visible: the floating-point deviation between two summation orders is at most
-    a few ulps of the sum of absolute products (measured on every run, not a theorem). *)
-Definition C15_float_bound_full : Prop := True.
+(** ** floating point.  In the standard model of rounded arithmetic (relative error u per operation, absolute error eta
+    where the result is subnormal; overflow excluded) every kernel is within
+        ((1+u)^(2n+7) - 1) * sum |w_i s_i|  +  (16n+7) (1+u)^(2n+7) eta
+    of the exact dot product of its 8n products -- for ANY operations +, *, fma that satisfy the model
+    (Proofs/KernelErr.v; the kernel is Model/Kernels.v instantiated with those operations) ... *)
+Theorem C15_kernel_error_model : forall (u eta : R) (add' mul' : R -> R -> R) (fma' : R -> R -> R -> R),
+  0 <= u -> 0 <= eta ->
+  (forall a b, Rabs (add' a b - (a + b)) <= u * Rabs (a + b) + eta) ->
+  (forall a b, Rabs (mul' a b - a * b) <= u * Rabs (a * b) + eta) ->
+  (forall a b c, Rabs (fma' a b c - (a * b + c)) <= u * Rabs (a * b + c) + eta) ->
+  forall kind (w s : list R) n, length w = (8 * n)%nat -> length s = (8 * n)%nat ->
+  Rabs (@kernel CR (SE add' mul' fma') kind w s - dot w s)
+  <= ((1 + u) ^ (2 * n + 7) - 1) * dot (map Rabs w) (map Rabs s) + INR (16 * n + 7) * (1 + u) ^ (2 * n + 7) * eta.
+Proof. exact kernel_error. Qed.
+
+(** ... the bit-exact kernels (Flocq binary64 / binary32 operations, the instances the extracted model runs and the
+    implementation is compared with bit for bit) ARE such kernels whenever their result is finite
+    (Proofs/KernelSim64.v, KernelSim32.v: a finite result forces finite intermediates, and Flocq's *_correct theorems
+    identify each finite operation with the correctly rounded real one) ... *)
+Theorem C15_kernel_error_f64 : forall kind (w s : list (binary_float 53 1024)) n,
+  length w = (8 * n)%nat -> length s = (8 * n)%nat ->
+  is_finite (@kernel Floats.CB Floats.S64 kind w s) = true ->
+  let uu := / 2 * bpow radix2 (- 53 + 1) in let ee := / 2 * bpow radix2 (3 - 1024 - 53) in
+  Rabs (B2R (@kernel Floats.CB Floats.S64 kind w s) - dot (map B2R w) (map B2R s))
+  <= ((1 + uu) ^ (2 * n + 7) - 1) * dot (map Rabs (map B2R w)) (map Rabs (map B2R s)) + INR (16 * n + 7) * (1 + uu) ^ (2 * n + 7) * ee.
+Proof. exact KernelSim64.kernel_error_B. Qed.
+
+Theorem C15_kernel_error_f32 : forall kind (w s : list (binary_float 24 128)) n,
+  length w = (8 * n)%nat -> length s = (8 * n)%nat ->
+  is_finite (@kernel Floats.CB Floats.S32 kind w s) = true ->
+  let uu := / 2 * bpow radix2 (- 24 + 1) in let ee := / 2 * bpow radix2 (3 - 128 - 24) in
+  Rabs (B2R (@kernel Floats.CB Floats.S32 kind w s) - dot (map B2R w) (map B2R s))
+  <= ((1 + uu) ^ (2 * n + 7) - 1) * dot (map Rabs (map B2R w)) (map Rabs (map B2R s)) + INR (16 * n + 7) * (1 + uu) ^ (2 * n + 7) * ee.
+Proof. exact KernelSim32.kernel_error_B. Qed.
+
+(** ... so any two kernels (scalar, SSE, AVX; CPU dispatch picks among them) are within twice that bound of each other *)
+Theorem C15_kernels_close_f64 : forall k1 k2 (w s : list (binary_float 53 1024)) n,
+  length w = (8 * n)%nat -> length s = (8 * n)%nat ->
+  is_finite (@kernel Floats.CB Floats.S64 k1 w s) = true -> is_finite (@kernel Floats.CB Floats.S64 k2 w s) = true ->
+  let uu := / 2 * bpow radix2 (- 53 + 1) in let ee := / 2 * bpow radix2 (3 - 1024 - 53) in
+  Rabs (B2R (@kernel Floats.CB Floats.S64 k1 w s) - B2R (@kernel Floats.CB Floats.S64 k2 w s))
+  <= 2 * (((1 + uu) ^ (2 * n + 7) - 1) * dot (map Rabs (map B2R w)) (map Rabs (map B2R s)) + INR (16 * n + 7) * (1 + uu) ^ (2 * n + 7) * ee).
+Proof. exact KernelSim64.kernels_close_B. Qed.
+
+Theorem C15_kernels_close_f32 : forall k1 k2 (w s : list (binary_float 24 128)) n,
+  length w = (8 * n)%nat -> length s = (8 * n)%nat ->
+  is_finite (@kernel Floats.CB Floats.S32 k1 w s) = true -> is_finite (@kernel Floats.CB Floats.S32 k2 w s) = true ->
+  let uu := / 2 * bpow radix2 (- 24 + 1) in let ee := / 2 * bpow radix2 (3 - 128 - 24) in
+  Rabs (B2R (@kernel Floats.CB Floats.S32 k1 w s) - B2R (@kernel Floats.CB Floats.S32 k2 w s))
+  <= 2 * (((1 + uu) ^ (2 * n + 7) - 1) * dot (map Rabs (map B2R w)) (map Rabs (map B2R s)) + INR (16 * n + 7) * (1 + uu) ^ (2 * n + 7) * ee).
+Proof. exact KernelSim32.kernels_close_B. Qed.
+
+(* non-vacuity: a finite bit-exact kernel result *)
+Theorem C15_finite_example :
+  is_finite (@kernel Floats.CB Floats.S64 KAvx64 (map (Floats.b_of_Z 53 1024) [1;2;3;4;5;6;7;8]%Z) (map (Floats.b_of_Z 53 1024) [1;1;1;1;1;1;1;1]%Z)) = true.
+Proof. vm_compute. reflexivity. Qed.
 
 Example C15_example : @kernel CR SR KAvx64 [1;2;3;4;5;6;7;8] [1;1;1;1;1;1;1;1] = 36.
 Proof. rewrite (kernel_is_dot _ _ _ 1%nat) by reflexivity. cbn [dot]. lra. Qed.
@@ -35,3 +90,8 @@ Proof. rewrite (kernel_is_dot _ _ _ 1%nat) by reflexivity. cbn [dot]. lra. Qed.
 Print Assumptions C15_kernel_sum_R.
 Print Assumptions C15_kernels_agree_R.
 Print Assumptions C15_read_set.
+Print Assumptions C15_kernel_error_model.
+Print Assumptions C15_kernel_error_f64.
+Print Assumptions C15_kernel_error_f32.
+Print Assumptions C15_kernels_close_f64.
+Print Assumptions C15_kernels_close_f32.
